@@ -250,7 +250,7 @@ theorem readable_raises_example (J : Codec) (h : J.loads ['5'] = .raises) :
 
 /-- the message text begins with `<Class>.<top>[suffix]: ` -/
 def BeginsWithPath (cls : Text) (t : Text) (n : String) : Prop :=
-  ∃ (suf : Suffix) (rest : Text), t = withClass (some cls) (n.toList ++ suf.text) ++ ':' :: ' ' :: rest
+  ∃ (suf : SufPath) (rest : Text), t = withClass (some cls) (n.toList ++ suf.text) ++ ':' :: ' ' :: rest
 
 /-- `ErrorInfo.field` names the top-level field `n` -/
 def InfoNames (cls : Text) (i : Info) (n : String) : Prop :=
